@@ -21,6 +21,7 @@
   repository's own `path_with_spaces` test) and is decided for the other renderings by the metamorphic check
   (parsed query and rows identical between renderings) and the in-process lexer/parser correspondence.
 -/
+import Fsel.Lemmas.Lexer
 import Fsel.Gen.DocTables
 import Fsel.Lemmas.ParseArith
 import Fsel.Model.ParserTop
@@ -152,5 +153,26 @@ theorem nullary_without_brackets (bs : Bool) (s : Str) (fn : Function) (t : Lexe
   simp only [hf, hfn]
   unfold parseFunction
   cases t <;> simp_all [fnHeader, Expr.setMinus]
+
+/-! ### quoted literals at the lexer -/
+
+/-- **a quoted literal is one `String` token, whatever it contains** — blanks, commas, brackets, operators,
+    keywords (`from`, `where`, `order by` …), column and function names, the other kind of quote: the lexer's
+    scanning loop (the model is the well-founded `scan`, proved here by induction over the text) takes
+    every character up to the closing quote literally, in every lexer context (before/after FROM, after
+    WHERE, after an operator, possible-search-root …), and goes on right after the closing quote -/
+theorem quoted_literal_is_one_token (s r : Str) (ps : List Str) (st : LexSt) (hp : st.synth = false) :
+    ((∀ c ∈ s, c ≠ '\'') → st.parts = ('\'' :: (s ++ '\'' :: r)) :: ps →
+      nextLexem st = (some (.str s), { st with parts := r :: ps, afterOpen := false, psr := false, afterOperator := false })) ∧
+    ((∀ c ∈ s, c ≠ '"') → st.parts = ('"' :: (s ++ '"' :: r)) :: ps →
+      nextLexem st = (some (.str s), { st with parts := r :: ps, afterOpen := false, psr := false, afterOperator := false })) :=
+  ⟨fun hq h => LexL.next_lexem_single_quoted s r ps st hq h hp, fun hq h => LexL.next_lexem_double_quoted s r ps st hq h hp⟩
+
+/-- the premises are satisfiable: `'order by, (size) = "x"'` at the start of a word -/
+example : (∀ c ∈ ofS "order by, (size) = \"x\"", c ≠ '\'') ∧
+    (LexSt.init [ofS "'order by, (size) = \"x\"' rest"]).parts = ('\'' :: (ofS "order by, (size) = \"x\"" ++ '\'' :: ofS " rest")) :: [] := by
+  constructor
+  · decide
+  · rfl
 
 end Fsel.C11
